@@ -34,10 +34,24 @@ func FmtOpts(f model.Fmt4) []gtree.Option {
 	if f == model.DefaultFmt {
 		return nil
 	}
-	return []gtree.Option{
-		gtree.WithBranchFormatIntermedialNode(f.MidDirect, f.MidIndirect),
-		gtree.WithBranchFormatLastNode(f.LastDirect, f.LastIndirect),
+	order := f.Order
+	if order == "" {
+		order = "ml"
 	}
+	var opts []gtree.Option
+	for _, o := range order {
+		switch o {
+		case 'm':
+			opts = append(opts, gtree.WithBranchFormatIntermedialNode(f.MidDirect, f.MidIndirect))
+		case 'l':
+			opts = append(opts, gtree.WithBranchFormatLastNode(f.LastDirect, f.LastIndirect))
+		case 'y':
+			opts = append(opts, gtree.WithBranchFormatIntermedialNode("Y", "y"))
+		case 'x':
+			opts = append(opts, gtree.WithBranchFormatLastNode("X", "x"))
+		}
+	}
+	return opts
 }
 
 // Output calls OutputFromMarkdown on doc.
